@@ -807,3 +807,133 @@ func (c *Ctx) writesThrough(fn *types.Func, depth int, busy map[*types.Func]bool
 	writeSummaries[fn] = out
 	return out
 }
+
+// goWGCount: the number announced with W.Add equals the number of goroutines launched that call
+// W.Done: either Add(1) inside the launching loop, or Add(N) outside a loop `for i := 0; i < N; i++`.
+func (c *Ctx) goWGCount(rule string, s *goSite, clause string) {
+	if s.lit == nil {
+		return
+	}
+	info := s.pkg.TypesInfo
+	// wait groups whose Done the closure calls
+	dones := map[types.Object]bool{}
+	for _, call := range callsIn(s.lit.Body, true) {
+		if w := methodCallOn(info, call, "Done"); w != nil && isWaitGroup(w.Type()) {
+			dones[w] = true
+		}
+	}
+	if len(dones) == 0 {
+		return
+	}
+	// the launching loop (innermost loop of the launcher containing the go statement)
+	var loop ast.Stmt
+	for _, n := range stackTo(s.launcher, s.stmt) {
+		switch n.(type) {
+		case *ast.ForStmt, *ast.RangeStmt:
+			loop = n.(ast.Stmt)
+		}
+	}
+	for w := range dones {
+		key := s.key() + "/" + w.Name() + ".Add-count"
+		var adds []*ast.CallExpr
+		for _, call := range callsIn(s.launcher, false) {
+			if methodCallOn(info, call, "Add") == w {
+				adds = append(adds, call)
+			}
+		}
+		if len(adds) != 1 {
+			c.Undecided(rule, key, s.stmt.Pos(), fmt.Sprintf("expected exactly one %s.Add in the launcher, found %d", w.Name(), len(adds)))
+			continue
+		}
+		add := adds[0]
+		argK := c.canon(info, add.Args[0], nil)
+		if loop != nil && nodeContains(loop, add.Pos()) {
+			c.Check(argK == "1", rule, key, add.Pos(), "Add(1) per launched goroutine", fmt.Sprintf("%s.Add(%s) inside the launching loop: each goroutine calls Done once, so Wait returns too early or never", w.Name(), argK)).Clause = clause
+			continue
+		}
+		if loop == nil {
+			c.Check(argK == "1", rule, key, add.Pos(), "Add(1) for the single goroutine", fmt.Sprintf("%s.Add(%s) for a single goroutine that calls Done once: Wait never returns", w.Name(), argK)).Clause = clause
+			continue
+		}
+		f, ok := loop.(*ast.ForStmt)
+		bound := ""
+		if ok && f.Cond != nil && f.Init != nil && f.Post != nil {
+			if be, ok := unparen(f.Cond).(*ast.BinaryExpr); ok && be.Op == token.LSS {
+				if as, ok := f.Init.(*ast.AssignStmt); ok && len(as.Rhs) == 1 {
+					if v, ok := intConstOf(info, as.Rhs[0]); ok && v == 0 && identObj(info, as.Lhs[0]) == identObj(info, be.X) {
+						if inc, ok := f.Post.(*ast.IncDecStmt); ok && inc.Tok == token.INC && identObj(info, inc.X) == identObj(info, be.X) {
+							bound = c.canon(info, be.Y, nil)
+						}
+					}
+				}
+			}
+		}
+		if bound == "" {
+			c.Undecided(rule, key, add.Pos(), "launching loop is not of the form `for i := 0; i < N; i++`: cannot compare the number of goroutines with "+w.Name()+".Add("+argK+")")
+			continue
+		}
+		c.Check(bound == argK, rule, key, add.Pos(), fmt.Sprintf("Add(%s) matches the %s goroutines launched", argK, bound), fmt.Sprintf("%s.Add(%s) but the loop launches %s goroutines that each call Done once: when the two differ %s.Wait() never returns (or returns early)", w.Name(), argK, bound, w.Name())).Clause = clause
+	}
+}
+
+// sendAliases: a record sent on a channel from inside a loop must not contain a slice/map variable
+// that outlives the iteration and is written in the loop (the consumer would see it change).
+func (c *Ctx) sendAliases(rule string, s *goSite, clause string) {
+	if s.lit == nil {
+		return
+	}
+	info := s.pkg.TypesInfo
+	n := 0
+	walkStack(s.lit.Body, func(m ast.Node, stack []ast.Node) bool {
+		snd, ok := m.(*ast.SendStmt)
+		if !ok {
+			return true
+		}
+		var loop ast.Stmt
+		for _, a := range stack {
+			switch a.(type) {
+			case *ast.ForStmt, *ast.RangeStmt:
+				loop = a.(ast.Stmt)
+			}
+		}
+		if loop == nil {
+			return true
+		}
+		var body *ast.BlockStmt
+		switch l := loop.(type) {
+		case *ast.ForStmt:
+			body = l.Body
+		case *ast.RangeStmt:
+			body = l.Body
+		}
+		inLoop := declaredIn(info, body)
+		written := assignedObjs(info, body)
+		n++
+		key := fmt.Sprintf("%s/send#%d", s.key(), n)
+		bad := ""
+		ast.Inspect(snd.Value, func(q ast.Node) bool {
+			id, ok := q.(*ast.Ident)
+			if !ok {
+				return true
+			}
+			o := info.Uses[id]
+			v, isVar := o.(*types.Var)
+			if !isVar || inLoop[o] {
+				return true
+			}
+			switch v.Type().Underlying().(type) {
+			case *types.Slice, *types.Map:
+				if written[o] {
+					bad = v.Name()
+				}
+			}
+			return true
+		})
+		if bad != "" {
+			c.Violation(rule, key, snd.Pos(), fmt.Sprintf("the record sent here contains `%s`, a slice/map declared outside the loop and written again on the next iteration: records already sent share its storage and change under the consumer (data race / wrong values for earlier trees)", bad)).Clause = clause
+		} else {
+			c.OK(rule, key, snd.Pos(), "every slice/map in the record is created inside the iteration that sends it")
+		}
+		return true
+	})
+}
